@@ -2,7 +2,10 @@
 // it records exactly one history entry.   (C04)
 use vstd::prelude::*;
 use std::collections::HashMap;
+use vstd::std_specs::cmp::*;
 verus! {
+//@type base/src/constants.rs LAST_COLUMN
+//@type base/src/constants.rs LAST_ROW
 //@include um_shells.rs
 impl<'a> Model<'a> {
 // ---- A-atomic: each engine call either succeeds or leaves the engine state unchanged (ASSUMED, listed) ----
@@ -63,12 +66,43 @@ impl<'a> Model<'a> {
 //@stub base/src/actions.rs Model::move_columns_action
     ensures r.is_err() ==> *final(self) == *old(self)
 //@end
+// A-valid-ok (ASSUMED here, PROVED one level down): the column/row attribute calls fail only for a missing sheet, an off-grid
+// line or a negative size — Worksheet::{get_column_width,set_column_width,row_height,set_row_height} carry exactly this
+// `Err iff` contract in units cols/rows, and unit delegates proves the Model one-liners pass their arguments through unchanged.
+//@stub base/src/model.rs Model::get_column_width
+    ensures self.has_sheet(sheet) && 1 <= column <= 16384 ==> r.is_ok()
+//@end
+//@stub base/src/model.rs Model::set_column_width
+    ensures r.is_err() ==> *final(self) == *old(self),
+            final(self).workbook.worksheets@.len() == old(self).workbook.worksheets@.len(),
+            old(self).has_sheet(sheet) && 1 <= column <= 16384 && lt_ensures::<f64>(width, 0.0f64, false) ==> r.is_ok()
+//@end
+//@stub base/src/model.rs Model::get_row_height
+    ensures self.has_sheet(sheet) && 1 <= row <= 1048576 ==> r.is_ok()
+//@end
+//@stub base/src/model.rs Model::set_row_height
+    ensures r.is_err() ==> *final(self) == *old(self),
+            final(self).workbook.worksheets@.len() == old(self).workbook.worksheets@.len(),
+            old(self).has_sheet(sheet) && 1 <= column <= 1048576 && lt_ensures::<f64>(height, 0.0f64, false) ==> r.is_ok()
+//@end
     pub uninterp spec fn name_readable(&self, name: Seq<char>, scope: Option<u32>) -> bool;
+    pub open spec fn has_sheet(&self, sheet: u32) -> bool { (sheet as int) < self.workbook.worksheets@.len() }
 }
 impl Workbook {
 //@stub base/src/workbook.rs Workbook::worksheet
+    ensures r.is_ok() == ((worksheet_index as int) < self.worksheets@.len())
 //@end
 }
+//@fn base/src/expressions/utils/mod.rs is_valid_column_number
+//@spec
+    ensures r == (1 <= column <= 16384)
+//@rewrite `-> bool` => `-> (r: bool)`
+//@end
+//@fn base/src/expressions/utils/mod.rs is_valid_row
+//@spec
+    ensures r == (1 <= row <= 1048576)
+//@rewrite `-> bool` => `-> (r: bool)`
+//@end
 impl Worksheet {
 //@stub base/src/worksheet.rs Worksheet::is_row_hidden
 //@end
@@ -199,6 +233,33 @@ impl<'a> UserModel<'a> {
                 invariant delta <= new_delta <= delta + (col - (column + column_count)), column + column_count <= col <= column + column_count + delta + 1
 //@loop 2
                 invariant delta - (col - (column + delta)) <= new_delta <= delta, column + delta <= col <= column
+//@end
+
+// bulk setters: the whole request is validated before the first column/row is touched, so no `?` inside the loop can fire
+// after a mutation (R4: the inclusive-range `for` is read as the equivalent `while`, vstd has no iteration spec for RangeInclusive)
+//@fn base/src/user_model/common.rs UserModel::set_columns_width
+//@attr
+#[verifier::loop_isolation(false)]
+//@spec
+    ensures r.is_err() ==> same_state(old(self), final(self)), r.is_ok() ==> one_entry(old(self), final(self)),
+//@rewrite `) -> Result<(), String> {` => `) -> (r: Result<(), String>) {`
+//@rewrite `for column in column_start..=column_end {` => `let mut __i = column_start; while __i <= column_end { let column = __i; __i += 1;`
+//@loop 1
+            invariant column_start <= __i, column_start <= column_end ==> __i <= column_end + 1,
+                self.model.has_sheet(sheet), self.history == old(self).history, self.send_queue == old(self).send_queue,
+            decreases column_end + 1 - __i
+//@end
+//@fn base/src/user_model/common.rs UserModel::set_rows_height
+//@attr
+#[verifier::loop_isolation(false)]
+//@spec
+    ensures r.is_err() ==> same_state(old(self), final(self)), r.is_ok() ==> one_entry(old(self), final(self)),
+//@rewrite `) -> Result<(), String> {` => `) -> (r: Result<(), String>) {`
+//@rewrite `for row in row_start..=row_end {` => `let mut __i = row_start; while __i <= row_end { let row = __i; __i += 1;`
+//@loop 1
+            invariant row_start <= __i, row_start <= row_end ==> __i <= row_end + 1,
+                self.model.has_sheet(sheet), self.history == old(self).history, self.send_queue == old(self).send_queue,
+            decreases row_end + 1 - __i
 //@end
 }
 
